@@ -53,7 +53,7 @@ TOL_SHAPE = (1, 10 ** 11)     # 1e-11
 TOL_TRI_RT = (1, 10 ** 14)    # runtime (binary64) triangle tables: 1e-14
 TOL_G1D = (1, 10 ** 13)       # 1e-13
 TOL_FACE = (1, 10 ** 13)
-TOL_LOB = (1, 10 ** 11)
+TOL_LOB = (1, 10 ** 13)    # symmetry of the 1-D node sets
 
 
 # ----------------------------------------------------------------------------- helpers
@@ -85,12 +85,6 @@ def digest(*arrays):
         h.update(str(a.shape).encode())
         h.update(a.tobytes())
     return h.hexdigest()[:16]
-
-
-def sh_legendre_deriv(n):
-    """integer coefficients of d/ds P_n(2s-1)"""
-    c = [(-1) ** (n + k) * math.comb(n, k) * math.comb(n + k, k) for k in range(n + 1)]
-    return [k * c[k] for k in range(1, n + 1)]
 
 
 CERT_HEAD = ('From Coq Require Import ZArith List Lia.\nImport ListNotations.\n'
@@ -219,11 +213,9 @@ def cert_files(T):
         e1 = T.el1d[p]
         body.append('Definition nodes1 : list sn := %s.' % snl(e1['coords']))
         body.append('Definition lobatto : list sn := %s.' % snl(T.lob[p]))
-        cs = sh_legendre_deriv(p)
-        body.append('Example lob_coeffs : poly_deriv (sh_legendre %d) = [%s].\nProof. vm_compute. reflexivity. Qed.' % (p, '; '.join('(%d)' % c for c in cs)))
         for nm in ('nodes1', 'lobatto'):
-            body.append('Example %s_ok : nodes1d_ok 2 %d %s (poly_deriv (sh_legendre %d)) %d %d = true.\n%s' % ((nm, p, nm, p) + TOL_LOB + (QED,)))
-            body.append('Definition %s_meaning := nodes1d_ok_sound 2 two_le_two %d %s _ %d %d eq_refl %s_ok.' % ((nm, p, nm) + TOL_LOB + (nm,)))
+            body.append('Example %s_ok : nodes1d_ok 2 %d %s %d %d = true.\n%s' % ((nm, p, nm) + TOL_LOB + (QED,)))
+            body.append('Definition %s_meaning := nodes1d_ok_sound 2 two_le_two %d %s %d %d eq_refl %s_ok.' % ((nm, p, nm) + TOL_LOB + (nm,)))
         if e1['vertexNodes'] != [0, p] or e1['interiorNodes'] != list(range(1, p)):
             body.append('Example vertex_nodes_1d_unexpected : false = true. Proof. reflexivity. Qed.')
         seen = {}
@@ -803,7 +795,7 @@ def correspondence(ctx, model_ok):
     nbad = [r_ for r_ in res if not r_['ok']]
     ctx.cov['certificates'] = dict(files=len(res), configurations=len(cfgmap), failed=[r_['name'] for r_ in nbad],
                                    seconds=round(time.time() - t0, 1), bytes=sum(r_['bytes'] for r_ in res),
-                                   tolerances=dict(shapes='1e-11', tri_runtime='1e-14', gauss1d='1e-13', faces='1e-13', lobatto_root='1e-11'))
+                                   tolerances=dict(shapes='1e-11', tri_runtime='1e-14', gauss1d='1e-13', faces='1e-13', nodes1d_symmetry='1e-13'))
     ctx.cov['certificate_map_sample'] = dict(list(sorted(cfgmap.items()))[:6])
     ctx.count('certified_configurations', len(cfgmap))
     ctx.count('distinct_nontrivial', len(cfgmap))
